@@ -196,3 +196,15 @@ CASES += [
         write!(writer, "[")?;
         for j in 0..=i {''', expect={'C15': 'coverage of anti'}),
 ]
+
+CASES += [
+ dict(id='clique-template-geq', kind='fire', file=C, old='") => [{}] >= [{}]"', new='") => [{}] > [{}]"', expect={'C16': 'template'}),
+ dict(id='clique-template-or', kind='fire', file=C, old='"-({} & {}) &"', new='"-({} | {}) &"', expect={'C16': 'template'}),
+ dict(id='clique-template-spelling', kind='silent', file=C, old='"-({} & {}) &"', new='"not ({} and {})  and"', checks=['C16']),
+]
+
+CASES += [
+ dict(id='queens-spelling', kind='silent', file=Q, old='        writeln!(writer, "] = 1 &")?;\n    }\n\n    writeln!(writer)?;\n    writeln!(writer, "\\"every column', new='        writeln!(writer, "]  =  1 and")?;\n    }\n\n    writeln!(writer)?;\n    writeln!(writer, "\\"every column', checks=['C15']),
+ dict(id='queens-row-or', kind='fire', file=Q, old='        writeln!(writer, "] = 1 &")?;\n    }\n\n    writeln!(writer)?;\n    writeln!(writer, "\\"every column', new='        writeln!(writer, "] = 1 |")?;\n    }\n\n    writeln!(writer)?;\n    writeln!(writer, "\\"every column', expect={'C15': 'operator'}),
+ dict(id='sudoku-eq-2', kind='fire', file=U, old='            writeln!(writer, "[{}] = 1 &", vars)?;\n\n            let vars = (0..square)\n                .map(|j| format!("_{}_is_{}", j * square + i, k))', new='            writeln!(writer, "[{}] = 2 &", vars)?;\n\n            let vars = (0..square)\n                .map(|j| format!("_{}_is_{}", j * square + i, k))', expect={'C17': 'list #2'}),
+]
